@@ -145,8 +145,10 @@ impl PushParser {
                 continue;
             }
             if ")" == token {
-                // End of (sub) list
-                depth -= 1;
+                // End of (sub) list; a surplus ')' at top level is ignored
+                if depth > 0 {
+                    depth -= 1;
+                }
                 continue;
             }
 
